@@ -3,6 +3,7 @@ package nc
 import (
 	"fmt"
 	"go/constant"
+	"go/token"
 	"go/types"
 	"sort"
 	"strings"
@@ -128,11 +129,8 @@ func (c *c15) classifyWritten(fn *ssa.Function, tm *Termer, ws writerSlot, subj 
 		out.guarded = false
 		if in, ok := inner.V.(ssa.Instruction); ok && in.Block() != nil {
 			for _, g := range Guards(in.Block()) {
-				gt := tm.Of(g.Cond)
-				if gt.Op == "bin" && gt.Args[1].Op == "nil" && gt.Args[0].String() == holder {
-					if (gt.Name == "!=" && g.True) || (gt.Name == "==" && !g.True) {
-						out.guarded = true
-					}
+				if GuardNilness(g, func(v ssa.Value) bool { return tm.Of(v).String() == holder }) == -1 {
+					out.guarded = true
 				}
 			}
 		}
@@ -269,6 +267,9 @@ func (c *c15) nodeByIdSlot(fn *ssa.Function, tm *Termer, sf *slotFinder, t *Term
 func (c *c15) byIdSlot(fn *ssa.Function, tm *Termer, sf *slotFinder, t *Term, selector, what string) (string, string) {
 	if t.Op == "call" && t.Name == selector && len(t.Args) == 2 {
 		if r, ok := sf.direct(t.Args[0]); ok {
+			if n := narrowingParsers(t.Args[0], types.Typ[types.Int]); len(n) > 0 {
+				return "", "the " + what + " id: " + strings.Join(n, "; ")
+			}
 			return r.Slot, ""
 		}
 		return "", selector + " is not called with a value read from the wire: " + t.String()
@@ -302,6 +303,9 @@ func (c *c15) byIdSlot(fn *ssa.Function, tm *Termer, sf *slotFinder, t *Term, se
 				if !ok {
 					return selector + " is not called with a value read from the wire: " + et.String()
 				}
+				if n := narrowingParsers(et.Args[0], types.Typ[types.Int]); len(n) > 0 {
+					return "the " + what + " id: " + strings.Join(n, "; ")
+				}
 				if slot != "" && slot != r.Slot {
 					return "candidates selected by two different wire values (" + slot + ", " + r.Slot + ")"
 				}
@@ -318,11 +322,10 @@ func (c *c15) byIdSlot(fn *ssa.Function, tm *Termer, sf *slotFinder, t *Term, se
 				conds = append(conds, Guard{iff.Cond, pred.Succs[0] == ph.Block(), pred})
 			}
 			for _, g := range conds {
-				gt := tm.Of(g.Cond)
-				if gt.Op != "bin" || gt.Name != "==" || !g.True {
+				l, rr, op, okc := c15HeldFact(tm, g)
+				if !okc || op != token.EQL {
 					continue
 				}
-				l, rr := gt.Args[0], gt.Args[1]
 				if !(l.Op == "field" && l.Name == "Id") {
 					l, rr = rr, l
 				}
@@ -380,15 +383,14 @@ func (c *c15) selectionRestricted(fn *ssa.Function, tm *Termer, sf *slotFinder, 
 			continue
 		}
 		gt := tm.Of(g.Cond)
-		if gt.Op == "bin" && (gt.Name == "==" || gt.Name == "!=") {
-			a, b := gt.Args[0], gt.Args[1]
+		if a, b, op, okc := c15HeldFact(tm, g); okc && (op == token.EQL || op == token.NEQ) {
 			if a.Op == "nil" {
 				a, b = b, a
 			}
 			if b.Op == "nil" && (a.String() == et.String() || inWeb(a)) {
 				continue
 			}
-			if gt.Name == "==" && g.True {
+			if op == token.EQL {
 				if !(a.Op == "field" && a.Name == "Id") {
 					a, b = b, a
 				}
@@ -475,6 +477,10 @@ func (c *c15) readerForm(fn *ssa.Function, tm *Termer, sf *slotFinder, e wireEnt
 				r, ok := sf.direct(a.Args[0])
 				if !ok {
 					return "", "TraitWithId is not called with a value read from the wire: " + a.String()
+				}
+				// the id itself must be parsed faithfully (decimal, wide enough): another id selects another trait
+				if n := narrowingParsers(a.Args[0], types.Typ[types.Int]); len(n) > 0 {
+					return "", "the trait id: " + strings.Join(n, "; ")
 				}
 				if !set(r.Slot) {
 					return
@@ -753,15 +759,18 @@ func (c *c15) checkSeparators(label string, items []fmtItem, pos string) {
 
 // C15 — everything the library writes it reads back unchanged.
 func C15(p *Prog, r *Run) {
-	r.Explanation = "Decided, per wire format, is the identity reader-slot-map ∘ writer-slot-map on the genetic fields: for every field the property names (gene: innovation and mutation number, enabled flag, weight, recurrence flag, endpoints by node id, trait by id; node: id, neuron type, activation type, trait; trait: id and every parameter; module gene: control node, numbers, flag, inputs and outputs in order) the writer puts it into exactly one slot (format-verb position, split-line column, or YAML key) in a form that reads back exactly (%g/%v for floats, no width or precision, ids guarded against nil traits), and the reader restores the same field from the same slot through the inverse lookup (TraitWithId / node selection by Id / activation and neuron names through inverse tables) without narrowing conversions. Further: the genome framing (keywords, line breaks, section order, genome id), the organism header line, the population re-framing (every re-framed line ends in a newline before the next write), gob encode/decode sequences of experiment, trial, generation and champion (same order, same guards), and the solver-model field mapping through its JSON struct. Selections by id written out as loops must take the matching element whenever they meet it (no further condition inside the search); the YAML record readers must receive trait/node lists that are already complete; the bytes MarshalBinary returns and the population re-framing buffer must live in memory private to the call (no pooled or borrowed storage). Not decided: float fidelity inside fmt, yaml.v3, encoding/json and encoding/gob (trusted to round-trip float64 exactly); semantic equality of whole documents."
+	r.Explanation = "Decided, per wire format, is the identity reader-slot-map ∘ writer-slot-map on the genetic fields: for every field the property names (gene: innovation and mutation number, enabled flag, weight, recurrence flag, endpoints by node id, trait by id; node: id, neuron type, activation type, trait; trait: id and every parameter; module gene: control node, numbers, flag, inputs and outputs in order) the writer puts it into exactly one slot (format-verb position, split-line column, or YAML key) in a form that reads back exactly (%g/%v for floats, no width or precision, ids guarded against nil traits), and the reader restores the same field from the same slot through the inverse lookup (TraitWithId / node selection by Id / activation and neuron names through inverse tables) without narrowing conversions. Further: the genome framing (keywords, line breaks, section order, genome id), the organism header line, the population re-framing (every re-framed line ends in a newline before the next write), gob encode/decode sequences of experiment, trial, generation and champion (same order, same guards), and the solver-model field mapping through its JSON struct. Selections by id written out as loops must take the matching element whenever they meet it (no further condition inside the search); the YAML record readers must receive trait/node lists that are already complete; the bytes MarshalBinary returns and the population re-framing buffer must live in memory private to the call (no pooled or borrowed storage). Decoders that fill an object handed in by the caller (Organism.UnmarshalBinary, Experiment/Trial/Generation.Decode, and decodeOrganism for its local organism) are decided by path search to leave a state that is a function of the bytes read only: no field of the receiver is read before the call has written it, and every field the encoder writes is assigned from the wire on every path to a nil error. The YAML module reader must have written the last link into the control node before anything (the gene constructor, which copies the link endpoints into ioNodes) reads the link lists. Every codec function that returns a nil error has performed each of its wire operations under the conditions that operation is written for, none of them failed, loops over lists are left early only with an error, and an (object, error) pair is never (nil, nil) (path search with the nilness of the returned error tracked). Lookups by id: the selectors search the whole list for every id other than 0; what a lookup finds is carried into the restored record, and the uniqueness probes of the genome readers let new ids pass. Presence tests around optional sections (modules) have the polarity that writes / reads a section that is there; tests of the number of columns / parts of a line accept what the writer emits; integers are parsed in base 10; the buffered writers are flushed on every successful path. Not decided: float fidelity inside fmt, yaml.v3, encoding/json and encoding/gob (trusted to round-trip float64 exactly); semantic equality of whole documents."
 	c := &c15{r: r, p: p, sums: NewSummaries(p)}
 
-	r.Rule("C15.0", "the id-based selectors used by every reader return nil or the list element whose Id equals the requested id", func() {
+	r.Rule("C15.0", "the id-based selectors used by every reader return nil or the list element whose Id equals the requested id, and return that element whenever the list holds one (id 0 means \"none\" on the wire)", func() {
 		for _, n := range []string{"TraitWithId", "NodeWithId"} {
 			fn := p.Func(PkgG, n)
 			r.Fn(FuncName(fn))
 			ok, why := selectorByIdOK(p, fn)
 			r.Check(ok, n, p.Pos(fn.Pos()), "returns nil or the element with element.Id == id", n+": "+why)
+			okC, whyC, pathC := c15SelectorComplete(p, fn, &r.PathsExplored)
+			r.Check(okC, n+".complete", p.Pos(fn.Pos()), "for an id other than 0 the whole list is searched and the search ends early only with the element found",
+				n+": "+whyC+" (records that refer to it by id are restored without it)", pathC...)
 		}
 	})
 
@@ -802,6 +811,18 @@ func C15(p *Prog, r *Run) {
 
 	r.Rule("C15.9", "solver model: every model field of the fast solver is saved in one holder field and restored from the same holder field (constructor argument position or later store); modules element-wise; activation types as registry names", func() {
 		c.solverModel()
+	})
+
+	r.Rule("C15.10", "decoders that fill an object in place (Organism.UnmarshalBinary, Experiment/Trial/Generation.Decode, decodeOrganism): what a successful decode leaves in the object is a function of the bytes read only - no field of the receiver is read before this call has written it (otherwise decoding into a reused object differs from decoding into a zero object), and every field the encoder writes is assigned from the wire on every path that returns a nil error (otherwise the object keeps a stale value)", func() {
+		c.decodeDeterminacy()
+	})
+
+	r.Rule("C15.12", "references by id in the genome readers: a trait or node that the lookup finds is carried into the restored record on every path that returns without an error, and the uniqueness probes on the lists being built let ids pass that are not there yet", func() {
+		c.lookupsByID()
+	})
+
+	r.Rule("C15.11", "an encoder or decoder (gob streams, organism binary form, plain/YAML genome codecs, population and solver-model files, the Read/Write wrappers) that returns a nil error has performed every wire operation of its sequence and none of them failed (the streams are unframed: a writer that reports success after a prefix produces a file that cannot be read back, a reader restores a prefix): no success path skips an operation whose presence condition holds, and a loop over a list is left early only with an error", func() {
+		c.wireOpsComplete()
 	})
 }
 
@@ -867,53 +888,91 @@ func (c *c15) plainNode() {
 		}
 		r.Check(!used, label+".ignored:"+slot, p.Pos(rfn.Pos()), "column "+slot+" is not consumed ("+why+")", "the reader consumes column "+slot+", which holds a derived value")
 	}
-	// every comparison of the number of columns with a constant must accept what the writer emits
+	// every comparison of the number of columns with a constant must accept what the writer emits. The comparison is read
+	// as a fact (CmpFact: `4 > len(parts)`, `!(len(parts) < 4)` and an exchanged if/else are the same test), its outcome
+	// for the number of columns the writer emits is fixed, and under these outcomes (path search, robust_c15/c15d):
+	//   - the branch taken can still end in a return without an error (the written line is not rejected);
+	//   - every field the reader assigns at all is assigned on every path that returns without an error (no field read
+	//     is skipped for the written number of columns).
 	n := int64(len(slots))
+	type colTest struct {
+		iff     *ssa.If
+		op      token.Token
+		k       constant.Value
+		outcome bool
+	}
+	var tests []colTest
+	var fixed []Guard
 	Instrs(rfn, func(b *ssa.BasicBlock, _ int, in ssa.Instruction) {
 		iff, ok := in.(*ssa.If)
 		if !ok {
 			return
 		}
-		bin, ok := iff.Cond.(*ssa.BinOp)
-		if !ok {
+		cx, cy, op, okc := CmpFact(iff.Cond, true)
+		if !okc {
 			return
 		}
-		lt := rtm.Of(bin.X)
-		k, isC := bin.Y.(*ssa.Const)
+		lt := rtm.Of(cx)
+		k, isC := cy.(*ssa.Const)
 		if lt.Op != "len" || !isSplit(lt.Args[0]) || !isC || k.Value == nil {
 			return
 		}
-		outcome := constant.Compare(constant.MakeInt64(n), bin.Op, k.Value)
+		outcome := constant.Compare(constant.MakeInt64(n), op, k.Value)
+		tests = append(tests, colTest{iff, op, k.Value, outcome})
+		fixed = append(fixed, Guard{iff.Cond, outcome, b})
+	})
+	// the object that is filled: what the returns hand out
+	var subj ssa.Value
+	nSubj := 0
+	Instrs(rfn, func(_ *ssa.BasicBlock, _ int, in ssa.Instruction) {
+		if ret, ok := in.(*ssa.Return); ok && len(ret.Results) > 0 {
+			if k, isC := ret.Results[0].(*ssa.Const); isC && k.Value == nil {
+				return
+			}
+			if ret.Results[0] != subj {
+				subj = ret.Results[0]
+				nSubj++
+			}
+		}
+	})
+	skipped := ""
+	if nSubj == 1 {
+		assigned := map[string]bool{}
+		Instrs(rfn, func(_ *ssa.BasicBlock, _ int, in ssa.Instruction) {
+			for _, f := range c15Writes(in, subj, true) {
+				assigned[f] = true
+			}
+		})
+		for _, f := range sortedKeys(assigned) {
+			f := f
+			if path := c15SuccessPath(p, c15SuccessQuery{fn: rfn, fixed: fixed, explored: &r.PathsExplored,
+				avoid: func(i ssa.Instruction) bool { return c15Has(c15Writes(i, subj, true), f) }}); path != nil {
+				skipped = f
+				break
+			}
+		}
+	} else {
+		skipped = "(the reader does not return one object)"
+	}
+	for _, t := range tests {
+		b := t.iff.Block()
 		taken := b.Succs[1]
-		if outcome {
+		if t.outcome {
 			taken = b.Succs[0]
 		}
-		// the branch taken for written records must not be an error return, and must not skip a field store
-		errRet := false
-		if ret, ok := taken.Instrs[len(taken.Instrs)-1].(*ssa.Return); ok && len(taken.Instrs) <= 6 {
-			if k0, isC := ret.Results[0].(*ssa.Const); isC && k0.Value == nil {
-				errRet = true
-			}
+		accepts := c15SuccessPath(p, c15SuccessQuery{fn: rfn, fixed: fixed, startEdge: [2]*ssa.BasicBlock{b, taken}, explored: &r.PathsExplored}) != nil
+		why := ""
+		switch {
+		case !accepts:
+			why = "it rejects the line (the branch taken only returns errors)"
+		case skipped != "":
+			why = "the field " + skipped + " is not read on some path that returns without an error"
 		}
-		skips := false
-		other := b.Succs[0]
-		if outcome {
-			other = b.Succs[1]
-		}
-		for _, oin := range other.Instrs {
-			if st, ok := oin.(*ssa.Store); ok && StoredField(st) != nil {
-				skips = true
-			}
-			if ci, ok := oin.(ssa.CallInstruction); ok {
-				if nm, _ := calleeName(ci.Common()); strings.HasSuffix(nm, "ActivationTypeFromName") {
-					skips = true
-				}
-			}
-		}
-		r.Check(!errRet && !skips, label+".column-count:"+bin.Op.String()+k.Value.ExactString(), p.Pos(iff.Pos()),
-			fmt.Sprintf("len(columns) %s %s with the %d written columns takes the branch that reads every field", bin.Op, k.Value.ExactString(), n),
-			fmt.Sprintf("the reader tests len(columns) %s %s; with the %d columns the writer emits it rejects the line or skips a field", bin.Op, k.Value.ExactString(), n))
-	})
+		r.Check(why == "", label+".column-count:"+t.op.String()+t.k.ExactString(), p.Pos(t.iff.Pos()),
+			fmt.Sprintf("len(columns) %s %s with the %d written columns takes the branch that reads every field", t.op, t.k.ExactString(), n),
+			fmt.Sprintf("the reader tests len(columns) %s %s; with the %d columns the writer emits %s", t.op, t.k.ExactString(), n, why))
+	}
+	r.Floor("column-count tests of the plain node reader", len(tests), 2)
 }
 
 func (c *c15) plainTrait() {
@@ -967,6 +1026,11 @@ func (c *c15) plainTrait() {
 		case t.Op == "elem" && t.Args[0].String() == "p1.Params" && inLoop:
 			parW++
 			ok, why := verbFaithful(v[0], types.Typ[types.Float64])
+			// a parameter printed without a blank behind it runs into the next one ("0.10.2"): that spelling is for the
+			// last parameter only
+			if ok && okText && len(items) == 1 && !c15OnlyForLast(wtm, fc, InnermostLoop(loopsW, fc.Call.Block())) {
+				ok, why = false, "the format without a trailing blank is not restricted to the last parameter (i >= len(Params)-1): two parameters run together"
+			}
 			r.Check(ok && okText, label+".Params.writer", p.Pos(fc.Call.Pos()), "parameter written with an exactly-reversible verb", "trait parameter: "+why+" / not separated by single blanks")
 		default:
 			r.Bad(label+".writer.operand", p.Pos(fc.Call.Pos()), "the trait writer prints "+t.String())
@@ -975,8 +1039,9 @@ func (c *c15) plainTrait() {
 	// the writer's loop covers all parameters
 	for _, l := range loopsW {
 		if iff, ok := l.Header.Instrs[len(l.Header.Instrs)-1].(*ssa.If); ok {
-			ct := wtm.Of(iff.Cond)
-			r.Check(ct.Op == "bin" && ct.Name == "<" && ct.Args[1].String() == "len(p1.Params)", label+".Params.writer-range", p.Pos(wfn.Pos()), "all parameters are written", "the writer does not range over all trait parameters: "+ct.String())
+			// the loop counts 0..len(p1.Params)-1, however the test is spelled
+			_, bound, okc := countsUp(l)
+			r.Check(okc && wtm.Of(bound).String() == "len(p1.Params)", label+".Params.writer-range", p.Pos(wfn.Pos()), "all parameters are written", "the writer does not range over all trait parameters: "+wtm.Of(iff.Cond).String())
 		}
 	}
 	newTrait := p.Func(PkgT, "NewTrait")
